@@ -55,6 +55,14 @@ def run(ctx, dn):
         # some adds go through the bulk entry point with the documented (u, v, d) form, d carrying a stale 't'
         prog = [("addfrom", [(op[1], op[2], {"t": [[0, 1]]} if ctx.rng.random() < 0.5 else {"w": 1})], op[3], op[4])
                 if (op[0] == "add" and op[3] is not None and ctx.rng.random() < 0.15) else op for op in prog]
+        # bunches that yield no pair, at instants where nothing else happens
+        for _ in range(ctx.rng.choice((0, 0, 1, 2))):
+            tt = ctx.rng.randint(-3, 30)
+            x = next((e[0] for o in prog for e in gen.elements(o)), 0)
+            empty = ctx.rng.choice((("addfrom", [], tt, None), ("path", [x], tt),
+                                    ("dn.star", [x], tt, None), ("dn.path", [], tt, None)))
+            prog.insert(ctx.rng.randint(0, len(prog)), empty)
+            ctx.cell("empty-bunch")
         _hist._case(ctx, "RND-ACC", directed, prog, removal=False, families=fam)
         _hist.run_program(ctx, dn, prog, directed, heavy if n % 3 == 0 else light, removal=False, every=2)
         if n < 2:
